@@ -18,6 +18,7 @@ package c19
 
 import (
 	"bytes"
+	"encoding/json"
 	"fmt"
 	"os"
 	"path/filepath"
@@ -116,6 +117,10 @@ const keyRootAnchorsLoader = "migrate/root/_anchors/loader-panic"
 // line feed and starts with a tab, a line feed, U+2028 or U+2029 is written as a literal block that reads
 // back without its first character(s) or does not parse at all
 const keyLiteralBlock = "migrate/value=multi-line-string-starting-with-tab-or-line-break/not-preserved"
+
+// canonical key: the output path was occupied and the old content was not fully replaced (the same case
+// judged with a fresh output path holds)
+const keyPreExisting = "migrate/outfile=pre-existing/old-content-not-replaced"
 
 // known reports whether key is a recorded finding (KNOWN_FINDINGS.txt) or is assumed to be one for a
 // development run (C19_ASSUME_KNOWN=key1,key2), in which case the generator steers away from its trigger.
@@ -285,8 +290,11 @@ type Pkg struct {
 }
 
 type Case struct {
-	In            string  `json:"in"`  // flag (--config v2.yml) | search (.mockery.yml / .mockery.yaml found in cwd)
-	Out           string  `json:"out"` // flag (--outfile out/v3.yml) | default (.mockery_v3.yml)
+	In  string `json:"in"`  // flag (--config v2.yml) | search (.mockery.yml / .mockery.yaml found in cwd)
+	Out string `json:"out"` // flag (--outfile out/v3.yml) | default (.mockery_v3.yml)
+	// Pre: what already sits at the output path: "" nothing, previous-larger (the result of migrating a
+	// larger v2 file to the same path with the same binary), longer-text, shorter-text, empty
+	Pre           string  `json:"pre,omitempty"`
 	Root          []Entry `json:"root,omitempty"`
 	PackagesState string  `json:"packages_state"` // absent, null, map
 	Packages      []Pkg   `json:"packages,omitempty"`
@@ -561,6 +569,7 @@ func gen(t *rapid.T) Case {
 	c := Case{
 		In:  rapid.SampledFrom([]string{"flag", "flag", "flag", "search-yml", "search-yaml"}).Draw(t, "in"),
 		Out: rapid.SampledFrom([]string{"flag", "flag", "default"}).Draw(t, "out"),
+		Pre: rapid.SampledFrom([]string{"", "", "", "", "previous-larger", "previous-larger", "longer-text", "longer-text", "shorter-text", "empty"}).Draw(t, "pre"),
 	}
 	c.Root = genEntries(t, "r", 2)
 	if known(keyRootAnchorsLoader) {
@@ -1085,6 +1094,8 @@ func general(key string) string {
 	switch {
 	case key == keyLiteralBlock:
 		return "a multi-line string value that starts with a tab or a line break is not preserved by the migrated file"
+	case key == keyPreExisting:
+		return "the output path already held a file and its old content was not fully replaced: the v3 file is wrong, although the same v2 file migrates correctly to a fresh path"
 	case strings.HasSuffix(key, "/dropped"):
 		return "a v2 setting that has a v3 counterpart does not appear at its level of the migrated file"
 	case strings.HasSuffix(key, "/wrong-value"):
@@ -1308,7 +1319,11 @@ func (c *Case) levels() []level {
 }
 
 func classify(c Case) (string, []string) {
-	cl := []string{"in=" + c.In, "out=" + c.Out, "packages=" + c.PackagesState, fmt.Sprintf("npackages=%d", len(c.Packages))}
+	pre := "outfile=fresh"
+	if c.Pre != "" {
+		pre = "outfile=pre-existing:" + c.Pre + "/out=" + c.Out
+	}
+	cl := []string{pre, "in=" + c.In, "out=" + c.Out, "packages=" + c.PackagesState, fmt.Sprintf("npackages=%d", len(c.Packages))}
 	add := func(s string) { cl = append(cl, s) }
 	kindsOf := map[string]map[string]bool{}  // listed key -> level kinds where set
 	valuesOf := map[string]map[string]bool{} // listed key -> distinct values
@@ -1585,12 +1600,69 @@ func skeleton(c Case) []byte {
 	return b
 }
 
+// larger returns the case with three more fully configured packages: migrating it gives a v3 file that
+// is longer than the one of c itself.
+func larger(c Case) Case {
+	var big Case
+	if err := json.Unmarshal([]byte(vh.JSON(c)), &big); err != nil {
+		vh.Infra("copying the case: %v", err)
+	}
+	big.PackagesState = "map"
+	for i := 0; i < 3; i++ {
+		var ents []Entry
+		for _, k := range keyTable {
+			if !k.Listed {
+				continue
+			}
+			v := fmt.Sprintf("previous-run-%s-%d-%s", k.Name, i, strings.Repeat("x", 40))
+			switch k.Kind {
+			case 'b':
+				ents = append(ents, Entry{K: k.Name, Kind: "b", B: true})
+			case 's':
+				if k.Name == "log-level" {
+					v = "debug"
+				}
+				ents = append(ents, Entry{K: k.Name, Kind: "s", S: v})
+			case 'l':
+				ents = append(ents, Entry{K: k.Name, Kind: "l", L: []string{v, v + "2"}})
+			case 'a':
+				ents = append(ents, Entry{K: k.Name, Kind: "a", A: []AnyKV{{K: "previous", V: &Any{T: "s", S: v}}}})
+			}
+		}
+		p := Pkg{Name: fmt.Sprintf("example.com/previous/run%d", i), Config: Cfg{State: "map", Entries: ents}, IfacesState: "map"}
+		for j := 0; j < 2; j++ {
+			p.Ifaces = append(p.Ifaces, Iface{Name: fmt.Sprintf("Previous%d", j), Config: Cfg{State: "map", Entries: ents}, ConfigsState: "list", Configs: []Cfg{{State: "map", Entries: ents}, {State: "map", Entries: ents}}})
+		}
+		big.Packages = append(big.Packages, p)
+	}
+	return big
+}
+
 func run(c Case) *vh.Violation {
 	fp, cl := classify(c)
 	vh.Count(fp, cl...)
 	if fp != "" && vh.NeedSample() {
 		vh.Sample(c)
 	}
+	v := judge(c)
+	if v == nil || c.Pre == "" {
+		return v
+	}
+	// Is the occupied output path the cause? Judge the same tree with a fresh path.
+	fresh := c
+	fresh.Pre = ""
+	if fv := judge(fresh); fv != nil {
+		return fv
+	}
+	files := map[string]string{}
+	for k, f := range v.Files {
+		files[k] = f
+	}
+	files["details.txt"] = "key: " + keyPreExisting + "\nwith the output path occupied (" + c.Pre + ") the check reports what follows; with a fresh output path the same v2 file passes.\n\n" + files["details.txt"]
+	return vh.Violate(keyPreExisting, "%s (the case-specific diagnosis is in tree/details.txt of the replay directory)", general(keyPreExisting)).With(files, "")
+}
+
+func judge(c Case) *vh.Violation {
 	in := render(c)
 	if d := selfCheck(c, in); d != "" {
 		vh.Invalid()
@@ -1625,7 +1697,32 @@ func run(c Case) *vh.Violation {
 		inRel:           string(in),
 	})
 	x := &ctx{files: map[string]string{"v2.yml": string(in)}}
-	x.obs = "$ mockery " + strings.Join(args, " ") + "\n"
+	switch c.Pre {
+	case "previous-larger":
+		vh.WriteFiles(d, map[string]string{"previous-v2.yml": string(render(larger(c)))})
+		pr := vh.Mockery(d, nil, "migrate", "--config", "previous-v2.yml", "--outfile", outRel)
+		if pr.TimedOut {
+			vh.Infra("migrate timed out")
+		}
+		x.obs += fmt.Sprintf("$ mockery migrate --config previous-v2.yml --outfile %s   (the earlier, larger migration)\nexit %d\n", outRel, pr.Exit)
+	case "longer-text":
+		var b strings.Builder
+		for i := 0; b.Len() < 4*len(in)+8192; i++ {
+			fmt.Fprintf(&b, "stale-key-%d: stale value left over from an older file\n", i)
+		}
+		vh.WriteFiles(d, map[string]string{outRel: b.String()})
+	case "shorter-text":
+		vh.WriteFiles(d, map[string]string{outRel: "stale: 1\n"})
+	case "empty":
+		vh.WriteFiles(d, map[string]string{outRel: ""})
+	}
+	if c.Pre != "" {
+		if old, err := os.ReadFile(filepath.Join(d, outRel)); err == nil {
+			x.files["v3-before.yml"] = string(old)
+			x.obs += fmt.Sprintf("the output path %s already holds %d bytes (%s)\n", outRel, len(old), c.Pre)
+		}
+	}
+	x.obs += "$ mockery " + strings.Join(args, " ") + "\n"
 
 	res := vh.Mockery(d, nil, args...)
 	if res.TimedOut {
